@@ -64,7 +64,7 @@ Definition proj_success (o : obs) : obs :=
   | VH (HRBytes d e) => VH (HRBytes d (forget_err e))
   | VH (HRN n e) => VH (HRN n (forget_err e))
   | VH (HRErr e) => VH (HRErr (forget_err e))
-  | VH (HREntries l e) => VH (HREntries l (forget_err e))
+  | VH (HREntries l e) => VH (HREntries (map (fun _ => ([], 0)) l) (forget_err e))  (* page size only: order of a page is the store's *)
   | x => x
   end.
 
